@@ -40,6 +40,11 @@ fn main() {
             let v = t2n_verif::gen::vocab_of(l);
             let raw = t2n_verif::spell::vocab::common_words_raw(l);
             let dropped: Vec<&str> = raw.iter().copied().filter(|w| !v.fillers.contains(w)).collect();
+            if args.get(2).map(|s| s.as_str()) == Some("--classes") {
+                for (k, c) in v.classes.iter().enumerate() {
+                    println!("  {} class {} ({}): {}", l, k, c.len(), c.join(" "));
+                }
+            }
             println!("{}: {} ordinary words ({} everyday words kept), {} number words, {} linking words; dropped as number/linking/known: {:?}", l, v.fillers.len(), v.common.len(), v.number_words.len(), v.linking.len(), dropped);
         }
         return;
